@@ -387,6 +387,35 @@ def c07_4(ctx):
               'the classification chain has no aborting else')
 
 
+_NUMERIC_HELPER_CALLERS = {
+    # the expression lexer: a token is a number iff is_string_numeric says so, its value is parse_numeric_string's
+    'bespokeasm.expression._lexical_analysis',
+    # a symbol's own text, offered as a number (no expression context)
+    'bespokeasm.assembler.preprocessor.symbol.PreprocessorSymbol.value_numeric', 'bespokeasm.assembler.preprocessor.symbol.PreprocessorSymbol.is_value_numeric',
+    # #create_memzone takes two plain literals matched by the numeric pattern
+    'bespokeasm.assembler.line_object.preprocessor_line.create_memzone.CreateMemzoneLine.__init__',
+    'bespokeasm.utilities.is_string_numeric', 'bespokeasm.utilities.parse_numeric_string',
+}
+
+
+def c07_who(ctx):
+    ctx.rule('C07.6', 'expression text is given a value only by the expression parser (no literal fast paths beside it)', 3)
+    n = 0
+    for q, fi in sorted(ctx.repo.functions.items()):
+        for c in ast.walk(fi.node):
+            if isinstance(c, ast.Call) and unparse(c.func).split('.')[-1] in ('parse_numeric_string', 'is_string_numeric'):
+                n += 1
+                ctx.check(q in _NUMERIC_HELPER_CALLERS, f'who:{unparse(c.func).split(".")[-1]}:{ctx.short(fi)}', fi.site(c),
+                          'the literal-conversion helpers are called only by the expression lexer and the two reviewed plain-literal sites',
+                          f'{ctx.short(fi)} converts text with {unparse(c.func)} itself: the text is not parsed as an expression (a character literal followed by an operator, '
+                          f'a Python-only spelling such as 1_000) and gets a different value')
+            if isinstance(c, ast.Call) and isinstance(c.func, ast.Name) and c.func.id in ('eval', 'exec', 'literal_eval') or \
+                    (isinstance(c, ast.Call) and unparse(c.func) in ('ast.literal_eval',)):
+                ctx.refute(f'who:eval:{ctx.short(fi)}', fi.site(c), 'no text is evaluated by Python itself', unparse(c)[:80])
+    if n < 5:
+        ctx.err('who:inventory', '-', 'at least 5 calls of the literal helpers', f'{n}')
+
+
 def c07_5(ctx):
     ctx.rule('C07.5', 'literal notations: pattern branches and parse_numeric_string branches agree', 8)
     util = 'bespokeasm.utilities'
@@ -394,7 +423,17 @@ def c07_5(ctx):
     branches = rx.top_branches(pn)
     HEX = frozenset('0123456789abcdefABCDEF')
     lexer = {}   # (kind, literal) -> digit class
-    for b in branches:
+    import re._constants as _sre
+    for bi, b in enumerate(branches):
+        # the digits of a numeric literal are one run of one digit class, nothing else (no separate first-digit rule)
+        classy = [(op, av) for k_, (op, av) in enumerate(b) if op in (_sre.IN, _sre.MAX_REPEAT, _sre.MIN_REPEAT, _sre.ANY, _sre.CATEGORY)
+                  and not (k_ == 0 and op == _sre.IN and all(x[0] == _sre.LITERAL for x in av))]      # a leading set of one-character markers (b|%)
+        quoted = any(op == _sre.LITERAL and av in (39, 34) for op, av in b)
+        if not quoted:
+            ok_shape = len(classy) == 1 and classy[0][0] == _sre.MAX_REPEAT and classy[0][1][0] == 1 and str(classy[0][1][1]) == 'MAXREPEAT'
+            ctx.check(ok_shape, f'literal:digits-one-run:{bi}', f'{ctx.repo.module(util).relpath}:5',
+                      'a numeric notation is its marker plus one or more digits of its base - every digit string of that base is a literal',
+                      f'branch {bi} of PATTERN_NUMERIC restricts the digits further: {[str(x[0]) for x in b]}')
         pre = rx.literal_prefixes(b)
         cls = rx.repeated_class(b)
         suf = rx.literal_suffix(b)
@@ -548,11 +587,18 @@ def c07_5(ctx):
     ctx.check(ok, 'function:LSB-index-0', comp.site(), 'LSB( selects byte 0', '; '.join(unparse(n) for n in init))
 
 
-RULES = [c07_1, c07_2, c07_3, c07_4, c07_5]
+def c07_state(ctx):
+    """Per-statement / per-lookup properties presuppose that nothing is remembered between statements beyond the reviewed state."""
+    from rules.shared import state_discipline
+    state_discipline(ctx, ('bespokeasm.expression', 'bespokeasm.utilities', 'bespokeasm.assembler.bytecode.parts', 'bespokeasm.assembler.line_object.data_line'))
+
+
+RULES = [c07_1, c07_2, c07_3, c07_4, c07_5, c07_state, c07_who]
 
 _X = 'expression/__init__.py'
 _U = 'utilities.py'
 MUTANTS = [
+    V('c07-hex-suffix-needs-leading-digit', 'utilities.py', "PATTERN_HEX = r'(?:\\$|0x)[0-9a-fA-F]+|[0-9a-fA-F]+H\\b'", "PATTERN_HEX = r'(?:\\$|0x)[0-9a-fA-F]+|[0-9][0-9a-fA-F]*H\\b'", 'C07.5'),
     V('c07-lexer-advance-before-gap', 'expression/__init__.py', '''        # anything between recognized parts other than whitespace is not part of a valid expression
         skipped_text = s[scan_position:part_match.start()].strip()
         if skipped_text != '':
